@@ -23,6 +23,7 @@ from pgmpy.models import (
     DynamicBayesianNetwork,
     FactorGraph,
     JunctionTree,
+    MarkovNetwork,
 )
 from pgmpy.utils import compat_fns
 
@@ -314,10 +315,18 @@ class VariableElimination(Inference):
             )
 
         # Step 2: If virtual_evidence is provided, modify the network.
-        if isinstance(self.model, BayesianNetwork) and (virtual_evidence is not None):
+        if isinstance(self.model, (BayesianNetwork, MarkovNetwork)) and (
+            virtual_evidence is not None
+        ):
             orig_model = self.model
             self._virtual_evidence(virtual_evidence)
-            virt_evidence = {"__" + str(cpd.variables[0]): 0 for cpd in virtual_evidence}
+            # In a Bayesian network the likelihoods are attached as observed helper
+            # children; in a Markov network they are extra unary factors.
+            virt_evidence = (
+                {"__" + str(cpd.variables[0]): 0 for cpd in virtual_evidence}
+                if isinstance(orig_model, BayesianNetwork)
+                else {}
+            )
             try:
                 return self.query(
                     variables=variables,
@@ -569,10 +578,18 @@ class VariableElimination(Inference):
                 f"Can't have the same variables in both `variables` and `evidence`. Found in both: {common_vars}"
             )
 
-        if isinstance(self.model, BayesianNetwork) and (virtual_evidence is not None):
+        if isinstance(self.model, (BayesianNetwork, MarkovNetwork)) and (
+            virtual_evidence is not None
+        ):
             orig_model = self.model
             self._virtual_evidence(virtual_evidence)
-            virt_evidence = {"__" + str(cpd.variables[0]): 0 for cpd in virtual_evidence}
+            # In a Bayesian network the likelihoods are attached as observed helper
+            # children; in a Markov network they are extra unary factors.
+            virt_evidence = (
+                {"__" + str(cpd.variables[0]): 0 for cpd in virtual_evidence}
+                if isinstance(orig_model, BayesianNetwork)
+                else {}
+            )
             try:
                 return self.map_query(
                     variables=variables,
@@ -1139,10 +1156,18 @@ class BeliefPropagation(Inference):
             )
 
         # Step 2: If virtual_evidence is provided, modify model and evidence.
-        if isinstance(self.model, BayesianNetwork) and (virtual_evidence is not None):
+        if isinstance(self.model, (BayesianNetwork, MarkovNetwork)) and (
+            virtual_evidence is not None
+        ):
             orig_model = self.model
             self._virtual_evidence(virtual_evidence)
-            virt_evidence = {"__" + str(cpd.variables[0]): 0 for cpd in virtual_evidence}
+            # In a Bayesian network the likelihoods are attached as observed helper
+            # children; in a Markov network they are extra unary factors.
+            virt_evidence = (
+                {"__" + str(cpd.variables[0]): 0 for cpd in virtual_evidence}
+                if isinstance(orig_model, BayesianNetwork)
+                else {}
+            )
             try:
                 return self.query(
                     variables=variables,
@@ -1243,10 +1268,18 @@ class BeliefPropagation(Inference):
         # Make a copy of the original model and then replace self.model with it later.
         orig_model = self.model.copy()
 
-        if isinstance(self.model, BayesianNetwork) and (virtual_evidence is not None):
+        if isinstance(self.model, (BayesianNetwork, MarkovNetwork)) and (
+            virtual_evidence is not None
+        ):
             orig_model = self.model
             self._virtual_evidence(virtual_evidence)
-            virt_evidence = {"__" + str(cpd.variables[0]): 0 for cpd in virtual_evidence}
+            # In a Bayesian network the likelihoods are attached as observed helper
+            # children; in a Markov network they are extra unary factors.
+            virt_evidence = (
+                {"__" + str(cpd.variables[0]): 0 for cpd in virtual_evidence}
+                if isinstance(orig_model, BayesianNetwork)
+                else {}
+            )
             try:
                 return self.map_query(
                     variables=variables,
